@@ -369,6 +369,9 @@ func check(prop, tier string) int {
 		if leg.Race {
 			mode = "race"
 		}
+		if t := map[bool]int{false: leg.Quick, true: leg.Thorough}[tier == "thorough"]; t <= 0 {
+			continue // a leg of the other tier only
+		}
 		key := mode + "|" + leg.Dense
 		bin := built[key]
 		if bin == "" {
